@@ -17,9 +17,16 @@ import CalVerif.Prim.Res
     offset with `checked_add`, which differs from unbounded addition only on results far outside
     the sheet (both give `None`).
 
+    `get_row_and_optional_column` accumulates with saturating `u32` arithmetic; the model uses
+    unbounded `Nat`, which is the same function for names of at most 6 letters and 9 digits (the
+    harness never writes longer names into a `ref` attribute).
+
     NOTE (duplication): the A1 helpers (`getRowAndOptionalColumn`, `columnNumberToName`,
-    `coordinateToName`) also belong to property C01 (`Model/XlsxCells.lean`, not available when this
-    file was written); they are defined locally in the namespace `SharedFormula`. -/
+    `coordinateToName`, `getDimension`) are also modelled by property C01 in `Model/XlsxCells.lean`
+    (over byte lists `List Nat`, with the saturation made explicit). That file did not exist when this
+    one was written and works on another representation; the helpers are therefore defined locally
+    over `List Char` in the namespace `SharedFormula`, and both copies are tied to the same Rust
+    functions by their own correspondence runs. -/
 
 namespace SharedFormula
 
@@ -129,8 +136,8 @@ def splitColon : List Char → List (List Char)
       | p :: ps => (c :: p) :: ps
       | [] => [[c]]
 
-/-- `get_dimension`. The subtractions `parts[1].0 - parts[0].0` are `u32`: with a reversed
-    rectangle they panic in a build with overflow checks (the harness profile) and wrap otherwise. -/
+/-- `get_dimension`. The differences `parts[1].0 - parts[0].0` are `saturating_sub` and only feed
+    a `warn!`; a reversed rectangle is returned as it is written (it then contains no cell). -/
 def getDimension (dimension : List Char) : Res Rect :=
   match splitColon dimension with
   | [a] =>
@@ -144,7 +151,7 @@ def getDimension (dimension : List Char) : Res Rect :=
     | .ok p =>
       match getRowColumn b with
       | .ok q =>
-        if q.1 < p.1 ∨ q.2 < p.2 then .panic "u32 sub overflow" else .ok ⟨p.1, p.2, q.1, q.2⟩
+        .ok ⟨p.1, p.2, q.1, q.2⟩
       | .err e => .err e
       | .panic e => .panic e
       | .outOfFuel => .outOfFuel
